@@ -32,6 +32,7 @@ type Acct struct {
 	Password string // plain text
 	Access   [8]byte
 	FileRoot string
+	RawHash  *string // if set: written verbatim as the stored password (malformed hashes)
 }
 
 var AllAccess = [8]byte{255, 255, 255, 255, 255, 255, 255, 255}
@@ -118,8 +119,12 @@ func AccountYAML(a Acct) string {
 	for i, b := range a.Access {
 		ints[i] = fmt.Sprint(int(b))
 	}
+	hash := HashPw(a.Password)
+	if a.RawHash != nil {
+		hash = *a.RawHash
+	}
 	return fmt.Sprintf("Login: %q\nName: %q\nPassword: %q\nAccess: [%s]\nFileRoot: %q\n",
-		a.Login, a.Name, HashPw(a.Password), strings.Join(ints, ", "), a.FileRoot)
+		a.Login, a.Name, hash, strings.Join(ints, ", "), a.FileRoot)
 }
 
 const EmptyNews = "Categories: {}\n"
